@@ -179,20 +179,27 @@ def run_shard(args):
     cons = casefile + ".console"
     env = dict(os.environ, KOGE29_VERIF_DRIVER="1", KOGE29_VERIF_IN=casefile, KOGE29_VERIF_OUT=iout)
     status = {"impl_rc": None, "model_rc": None}
-    try:
-        with open(cons, "wb") as cf:
-            p = subprocess.run([exe], env=env, stdout=cf, stderr=subprocess.DEVNULL, timeout=timeout)
-        status["impl_rc"] = p.returncode
-    except subprocess.TimeoutExpired:
-        status["impl_rc"] = "timeout"
-    try:
-        p = subprocess.run("ulimit -s unlimited 2>/dev/null; exec %s %s %s" % (
-            os.path.join(CACHE, "runner", "model_runner"), casefile, mout),
-            shell=True, stdout=subprocess.PIPE, stderr=subprocess.STDOUT, text=True, timeout=timeout)
-        status["model_rc"] = p.returncode
-        status["model_out"] = p.stdout[-500:]
-    except subprocess.TimeoutExpired:
-        status["model_rc"] = "timeout"
+    # a shard that does not finish in time is run once more with three times the limit before it counts: on a busy host a slow
+    # shard is not a hanging implementation
+    for attempt, limit in enumerate((timeout, 3 * timeout)):
+        try:
+            with open(cons, "wb") as cf:
+                p = subprocess.run([exe], env=env, stdout=cf, stderr=subprocess.DEVNULL, timeout=limit)
+            status["impl_rc"] = p.returncode
+            break
+        except subprocess.TimeoutExpired:
+            status["impl_rc"] = "timeout"
+            status["impl_timeouts"] = attempt + 1
+    for limit in (timeout, 3 * timeout):
+        try:
+            p = subprocess.run("ulimit -s unlimited 2>/dev/null; exec %s %s %s" % (
+                os.path.join(CACHE, "runner", "model_runner"), casefile, mout),
+                shell=True, stdout=subprocess.PIPE, stderr=subprocess.STDOUT, text=True, timeout=limit)
+            status["model_rc"] = p.returncode
+            status["model_out"] = p.stdout[-500:]
+            break
+        except subprocess.TimeoutExpired:
+            status["model_rc"] = "timeout"
     return casefile, iout, mout, cons, status
 
 
@@ -306,6 +313,8 @@ def compare_shard(pid, casefile, iout, mout, status, oc, nontrivial_key=None, ke
     I = {}
     if os.path.exists(iout):
         for l in open(iout):
+            if not l.endswith("\n"):
+                continue          # the driver was stopped in the middle of this line: not an observation
             t = parse_tokens(l)
             if "id" in t:
                 I[t["id"]] = t
